@@ -448,14 +448,17 @@ def r5(ctx, F):
     for b2 in cfg.reachable():
         for s2 in b.blocks[b2]['stmts']:
             rv = s2['rv']
-            if rv['k'] == 'bin' and rv['op'] == 'Eq':
+            if rv['k'] == 'bin' and rv['op'] in ('Eq', 'Ne'):
                 from rules.C01 import norm_add as _na
-                lhs = _na(term_of(fl, rv['ops'][0]))
-                rhs_o = fl.origins(rv['ops'][1])
-                if lhs[0] == 'add' and any(o.kind == 'param' and b.local_ty(o.key) == 'u64' for o in rhs_o):
-                    oc = fl.outcomes(None, s2['dst']['l'])
-                    if oc.get('true') and cfg.edges_guard(oc['true'], bi):
-                        g_eq = True
+                # prev_offset + prev_len == offset, either operand order, `==` (true edge) or `!=` (false edge)
+                for x_, y_ in ((rv['ops'][0], rv['ops'][1]), (rv['ops'][1], rv['ops'][0])):
+                    lhs = _na(term_of(fl, x_))
+                    rhs_o = fl.origins(y_)
+                    if lhs[0] == 'add' and any(o.kind == 'param' and b.local_ty(o.key) == 'u64' for o in rhs_o):
+                        oc = fl.outcomes(None, s2['dst']['l'])
+                        eq_e = oc.get('true' if rv['op'] == 'Eq' else 'false')
+                        if eq_e and cfg.edges_guard(eq_e, bi):
+                            g_eq = True
     ctx.check(g_chk and new_from_chk and g_eq, 'C01.R5', 'push_copy:merge-guards', 'merge only if prev_offset + prev_len == offset and checked_add is Some',
               'push_copy merges copies that are not contiguous or lets the merged length wrap (contiguity guard: %s, checked_add: %s)' % (g_eq, g_chk and new_from_chk), loc(b, b.lo))
     # otherwise a new op is pushed
